@@ -39,7 +39,7 @@ def universes():
     us.append(dict(mk(2, [[], [1]], [1, 1], [UNL], [True], [], [], 'serial', 2), tfmt=['pickle'], mainmod=True))
     us = [dict(u, twins=False) for u in us]
     us.append(dict(mk(6, [[], [], [], [], [], []], [1, 1, 1, 1, 1, 1], [UNL], [True], [], [], 'serial', 2), tfmt=['pickle'], twins=True))
-    # two cacheable types of the same cache kind, the name of one being a prefix of the other's (T1pNc1 / T1pNc1x)
+    # two cacheable types of the same cache kind, the name of one being a prefix of the other's (T1pNc1 / T1pNc1__x_: also a double underscore and a trailing underscore)
     us.append(dict(mk(3, [[], [1], []], [1, 2, 2], [UNL, UNL], [True, True], [], [], 'serial', 2), tfmt=['pickle', 'pickle'],
                    twins=False, prefixnames=True))
     return us
